@@ -76,6 +76,11 @@ class C08(Prop):
         traits = [(t, 'bin', f, s) for t, f, s in BIN] + [(t + 'Assign', 'assign', f, s) for t, f, s in BIN] + \
                  [(t, 'un', f, s) for t, f, s in UN]
         plans = [(t, sh, mode, None) for t, sh, mode in itertools.product(traits, SHAPES, ('attr', 'derive'))]
+        # many fields: two-digit tuple indices (`self.10`), named fields whose names sort differently from their order
+        for k, t in enumerate(traits):
+            plans.append((t, ('tuple', 12), 'attr' if k % 2 else 'derive', None))
+            if k % 3 == 0:
+                plans.append((t, ('named', 11), 'derive' if k % 2 else 'attr', None))
         # a field-level `#[derive_ex(Op(bound(..)))]` / `#[derive_ex(Op)]` on a field that is not the first one: the
         # results must still be paired with the fields in declaration order
         for k, (t, (sk, n)) in enumerate(itertools.product(traits, SHAPES)):
